@@ -531,16 +531,16 @@ theorem sectionOutcome_stops {α : Type} (t : Toggle) (p : UnitPlan) (v : α) :
   unfold sectionOutcome
   cases t <;> cases p.error <;> simp
 
-theorem faultyScript_sections (cfg : Config) (plan : Plan) (ai ap ar : List Bytes) :
-    faultyScript cfg plan ai ap ar
+theorem faultyScript_sections (cfg : Config) (plan : Plan) (ai ap ar : List Bytes) (rest : List Delivery) :
+    faultyScript cfg plan ai ap ar ++ rest
       = plan.info.deliveries cfg.info ai ++ (secDel cfg.gather.players cfg.players ap plan.players ++
-          (secDel cfg.gather.rules cfg.rules ar plan.rules ++ [])) := by
+          (secDel cfg.gather.rules cfg.rules ar plan.rules ++ rest)) := by
   simp [faultyScript, secDel, List.append_assoc]
 
-theorem faultyFaults_sections (cfg : Config) (plan : Plan) :
-    faultyFaults cfg plan
+theorem faultyFaults_sections (cfg : Config) (plan : Plan) (rest : List Bool) :
+    faultyFaults cfg plan ++ rest
       = plan.info.faults cfg.info ++ (secFlt cfg.gather.players cfg.players plan.players ++
-          (secFlt cfg.gather.rules cfg.rules plan.rules ++ [])) := by
+          (secFlt cfg.gather.rules cfg.rules plan.rules ++ rest)) := by
   simp [faultyFaults, secFlt, List.append_assoc]
 
 theorem faultySends_sections (cfg : Config) (st : State) (plan : Plan) :
@@ -574,8 +574,18 @@ theorem afterInfo_ok (ext : Ext) (s : Sock) (engine : Engine) (g : Gather) (retr
           pure (Response.mk info players rules)) := by
   simp [afterInfo, h]
 
-/-- the query after the socket is open, on the script of a plan: the outcome is the one the property prescribes, the
-datagrams sent are the plan's, nothing else -/
+theorem wfPlanReached_of_wfPlan (retries : Nat) (cfg : Config) (st : State) (plan : Plan)
+    (h : wfPlan retries cfg plan = true) : wfPlanReached retries cfg st plan = true := by
+  simp only [wfPlan, Bool.and_eq_true] at h
+  obtain ⟨⟨h1, h2⟩, h3⟩ := h
+  simp only [wfPlanReached, h1, h2, Bool.true_and, Bool.or_eq_true, Bool.and_eq_true]
+  simp only [Bool.or_eq_true] at h3
+  rcases h3 with h3 | h3
+  · exact Or.inr (Or.inl (Or.inr h3))
+  · exact Or.inr (Or.inr h3)
+
+/-- the query after the socket is open, on the script of a plan followed by ANY further deliveries and flags: the outcome
+is the one the property prescribes, the datagrams sent are the plan's, nothing else -/
 theorem queryBody_faulty (ext : Ext) (s : Sock) (hudp : s.tcp = false) (retries : Nat) (cfg : Config) (st : State)
     (hwf : wf cfg st = true) (hx : wfExchanges cfg = true)
     (hbi : BzOk ext (infoPacket cfg st) cfg.info.transport)
@@ -583,14 +593,15 @@ theorem queryBody_faulty (ext : Ext) (s : Sock) (hudp : s.tcp = false) (retries 
     (hbr : BzOk ext (reply 0x45 (encRules st.rules)) cfg.rules.transport) (ai ap ar : List Bytes)
     (hai : ai.Perm (infoDatagrams cfg st)) (hap : ap.Perm (playersDatagrams cfg st))
     (har : ar.Perm (rulesDatagrams cfg st)) (hfit : fits (scriptAs cfg ai ap ar) = true)
-    (plan : Plan) (hplan : wfPlan retries cfg plan = true) (sn : List (Bytes × Bool)) (w : Net)
-    (hw : AtS s w ⟨faultyScript cfg plan ai ap ar, faultyFaults cfg plan, sn⟩) :
+    (plan : Plan) (hplan : wfPlanReached retries cfg st plan = true) (restQ : List Delivery) (restF : List Bool)
+    (sn : List (Bytes × Bool)) (w : Net)
+    (hw : AtS s w ⟨faultyScript cfg plan ai ap ar ++ restQ, faultyFaults cfg plan ++ restF, sn⟩) :
     (queryBody ext s cfg.engine cfg.gather retries w).1 = faultyExpected cfg st plan
     ∧ sentOf (queryBody ext s cfg.engine cfg.gather retries w).2.log = sn ++ faultySends cfg st plan := by
   simp only [wfExchanges, Bool.and_eq_true] at hx
   obtain ⟨⟨hxi, hxp⟩, hxr⟩ := hx
-  simp only [wfPlan, Bool.and_eq_true] at hplan
-  obtain ⟨⟨hpi, hpp⟩, hpr⟩ := hplan
+  simp only [wfPlanReached, Bool.and_eq_true] at hplan
+  obtain ⟨hpi, hplan⟩ := hplan
   have hfit' : ∀ d ∈ scriptAs cfg ai ap ar, d.length ≤ PACKET_SIZE := by
     simpa [fits, List.all_eq_true] using hfit
   have hfi : ∀ d ∈ exchangeAs cfg.info ai, d.length ≤ PACKET_SIZE := fun d hd =>
@@ -602,8 +613,8 @@ theorem queryBody_faulty (ext : Ext) (s : Sock) (hudp : s.tcp = false) (retries 
   rw [faultyScript_sections, faultyFaults_sections] at hw
   rw [faultySends_sections]
   have h1 := steps_getServerInfo ext s hudp retries cfg st hwf hxi hbi ai hai hfi plan.info hpi
-    (secDel cfg.gather.players cfg.players ap plan.players ++ (secDel cfg.gather.rules cfg.rules ar plan.rules ++ []))
-    (secFlt cfg.gather.players cfg.players plan.players ++ (secFlt cfg.gather.rules cfg.rules plan.rules ++ [])) sn
+    (secDel cfg.gather.players cfg.players ap plan.players ++ (secDel cfg.gather.rules cfg.rules ar plan.rules ++ restQ))
+    (secFlt cfg.gather.players cfg.players plan.players ++ (secFlt cfg.gather.rules cfg.rules plan.rules ++ restF)) sn
   unfold faultyExpected
   unfold unitRes at h1
   rw [queryBody_afterInfo]
@@ -616,12 +627,12 @@ theorem queryBody_faulty (ext : Ext) (s : Sock) (hudp : s.tcp = false) (retries 
     simp only [Option.isSome_none, Bool.false_or]
     by_cases happ : appIdOk cfg.engine cfg.gather st.info.appid = true
     · simp only [happ, Bool.not_true, Bool.false_eq_true, ↓reduceIte]
+      simp only [hie, happ, Option.isSome_none, Bool.not_true, Bool.or_self, Bool.false_or, Bool.and_eq_true] at hplan
+      obtain ⟨hpp, hplan⟩ := hplan
       have hai' := afterInfo_ok ext s cfg.engine cfg.gather retries st.info happ
       have h2 := steps_playersSection ext s hudp retries cfg st hwf cfg.gather.players hxp hbp ap hap hfp plan.players
-        hpp (secDel cfg.gather.rules cfg.rules ar plan.rules ++ [])
-        (secFlt cfg.gather.rules cfg.rules plan.rules ++ []) (sn ++ plan.info.sends .info cfg.info)
-      have h3 := steps_rulesSection ext s hudp retries cfg st hwf cfg.gather.rules hxr hbr ar har hfr plan.rules
-        hpr [] [] (sn ++ plan.info.sends .info cfg.info ++ secSnd cfg.gather.players .players cfg.players plan.players)
+        hpp (secDel cfg.gather.rules cfg.rules ar plan.rules ++ restQ)
+        (secFlt cfg.gather.rules cfg.rules plan.rules ++ restF) (sn ++ plan.info.sends .info cfg.info)
       rcases sectionOutcome_stops cfg.gather.players plan.players st.players with ⟨k, hk, hc⟩ | ⟨op, hop, hc⟩
       · rw [hk] at h2 ⊢
         rw [hc]
@@ -629,6 +640,11 @@ theorem queryBody_faulty (ext : Ext) (s : Sock) (hudp : s.tcp = false) (retries 
         simpa [List.append_assoc] using hS.outcome w hw
       · rw [hop] at h2 ⊢
         rw [hc]
+        have hpr : (cfg.gather.rules == .skip || wfUnit retries plan.rules) = true := by
+          simpa [hc] using hplan
+        have h3 := steps_rulesSection ext s hudp retries cfg st hwf cfg.gather.rules hxr hbr ar har hfr plan.rules
+          hpr restQ restF
+          (sn ++ plan.info.sends .info cfg.info ++ secSnd cfg.gather.players .players cfg.players plan.players)
         rcases sectionOutcome_stops cfg.gather.rules plan.rules (expectedRules cfg.engine st.rules)
           with ⟨k, hk, _⟩ | ⟨or, hor, _⟩
         · rw [hk] at h3 ⊢
@@ -643,7 +659,7 @@ theorem queryBody_faulty (ext : Ext) (s : Sock) (hudp : s.tcp = false) (retries 
       simpa using hS.outcome w hw
 
 /-- the whole query from the initial state: one socket with the plan's deliveries queued on it, the plan's send
-faults scripted -/
+faults scripted; anything may follow both -/
 theorem query_faulty (ext : Ext) (port retries : Nat) (cfg : Config) (st : State)
     (hwf : wf cfg st = true) (hx : wfExchanges cfg = true)
     (hbi : BzOk ext (infoPacket cfg st) cfg.info.transport)
@@ -651,19 +667,23 @@ theorem query_faulty (ext : Ext) (port retries : Nat) (cfg : Config) (st : State
     (hbr : BzOk ext (reply 0x45 (encRules st.rules)) cfg.rules.transport) (ai ap ar : List Bytes)
     (hai : ai.Perm (infoDatagrams cfg st)) (hap : ap.Perm (playersDatagrams cfg st))
     (har : ar.Perm (rulesDatagrams cfg st)) (hfit : fits (scriptAs cfg ai ap ar) = true)
-    (plan : Plan) (hplan : wfPlan retries cfg plan = true) :
+    (plan : Plan) (hplan : wfPlanReached retries cfg st plan = true) (restQ : List Delivery) (restF : List Bool) :
     (query ext port cfg.engine cfg.gather retries
-        (Net.init [.opened (faultyScript cfg plan ai ap ar)] (faultyFaults cfg plan))).1 = faultyExpected cfg st plan
+        (Net.init [.opened (faultyScript cfg plan ai ap ar ++ restQ)] (faultyFaults cfg plan ++ restF))).1
+      = faultyExpected cfg st plan
     ∧ sentOf (query ext port cfg.engine cfg.gather retries
-        (Net.init [.opened (faultyScript cfg plan ai ap ar)] (faultyFaults cfg plan))).2.log
+        (Net.init [.opened (faultyScript cfg plan ai ap ar ++ restQ)] (faultyFaults cfg plan ++ restF))).2.log
       = faultySends cfg st plan := by
   rw [query_eq, Q.bind_apply]
-  have ho : openSock false port (Net.init [.opened (faultyScript cfg plan ai ap ar)] (faultyFaults cfg plan))
+  have ho : openSock false port
+        (Net.init [.opened (faultyScript cfg plan ai ap ar ++ restQ)] (faultyFaults cfg plan ++ restF))
       = (.ok ⟨0, port, false⟩,
-          ⟨[], [faultyScript cfg plan ai ap ar], faultyFaults cfg plan, [.opened 0 false port false]⟩) := rfl
+          ⟨[], [faultyScript cfg plan ai ap ar ++ restQ], faultyFaults cfg plan ++ restF,
+            [.opened 0 false port false]⟩) := rfl
   rw [ho]
   have h := queryBody_faulty ext ⟨0, port, false⟩ rfl retries cfg st hwf hx hbi hbp hbr ai ap ar hai hap har hfit
-    plan hplan [] ⟨[], [faultyScript cfg plan ai ap ar], faultyFaults cfg plan, [.opened 0 false port false]⟩
+    plan hplan restQ restF []
+    ⟨[], [faultyScript cfg plan ai ap ar ++ restQ], faultyFaults cfg plan ++ restF, [.opened 0 false port false]⟩
     ⟨rfl, by simp, by simp, rfl⟩
   simpa using h
 
@@ -727,6 +747,30 @@ theorem faultyExpected_stops (cfg : Config) (st : State) (plan : Plan) (u : Requ
     simp only [Plan.unit, toggleOf] at hi hp hu ht
     simp only [hi, sectionOutcome_none _ _ _ hp]
     simp [happ (by decide), sectionOutcome, hu, ht]
+
+/-- … only the units up to it need to be in C10's domain -/
+theorem wfPlanReached_stops (retries : Nat) (cfg : Config) (st : State) (plan : Plan) (u : Request) (k : ErrKind)
+    (hwfu : ∀ v ∈ earlier u ++ [u], toggleOf cfg v ≠ .skip → wfUnit retries (plan.unit v) = true)
+    (hu : (plan.unit u).error = some k) (ht : toggleOf cfg u = .enforce) :
+    wfPlanReached retries cfg st plan = true := by
+  have hi := hwfu .info (by cases u <;> simp [earlier]) (toggleOf_info cfg)
+  simp only [Plan.unit] at hi
+  unfold wfPlanReached
+  cases u with
+  | info =>
+    simp only [Plan.unit] at hu
+    simp [hi, hu]
+  | players =>
+    have hp := hwfu .players (by simp [earlier]) (by rw [ht]; decide)
+    simp only [Plan.unit, toggleOf] at hp hu ht
+    simp [hi, hp, hu, ht]
+  | rules =>
+    have hp := hwfu .players (by simp [earlier])
+    have hr := hwfu .rules (by simp [earlier]) (by rw [ht]; decide)
+    simp only [Plan.unit, toggleOf] at hp hr hu ht
+    by_cases hs : cfg.gather.players = .skip
+    · simp [hi, hs, hr]
+    · simp [hi, hp hs, hr]
 
 /-- … and nothing of the later units is sent -/
 theorem faultySends_stops (cfg : Config) (st : State) (plan : Plan) (u : Request) (k : ErrKind)
